@@ -1225,6 +1225,7 @@ func (ai *AimInfo) fieldWrites(fn *ssa.Function) (map[string]string, bool) {
 	out := map[string]string{}
 	unknown := false
 	seen := map[*ssa.Function]bool{}
+	var deferred []*ssa.Function
 	var rootOf func(v ssa.Value) ssa.Value
 	rootOf = func(v ssa.Value) ssa.Value {
 		switch x := v.(type) {
@@ -1285,11 +1286,36 @@ func (ai *AimInfo) fieldWrites(fn *ssa.Function) (map[string]string, bool) {
 			unknown = true
 		}
 		for _, c := range s.callees {
+			// a closure can only be called once the function that creates it has run: a closure that was found as a
+			// possible target of a function-value call (by signature) waits until its parent is reachable
+			if c.Parent() != nil && !seen[c.Parent()] && !createdIn(f, c) {
+				deferred = append(deferred, c)
+				continue
+			}
 			dfs(c)
 		}
 	}
 	dfs(fn)
+	for changed := true; changed; {
+		changed = false
+		for _, c := range deferred {
+			if !seen[c] && seen[c.Parent()] {
+				dfs(c)
+				changed = true
+			}
+		}
+	}
 	return out, unknown
+}
+
+// createdIn: f contains the MakeClosure of c (or names c directly).
+func createdIn(f, c *ssa.Function) bool {
+	for _, an := range f.AnonFuncs {
+		if an == c {
+			return true
+		}
+	}
+	return false
 }
 
 func fieldWritesCmd(argv []string) {
@@ -1355,6 +1381,9 @@ func (P *Program) NoWriteObligations(hasTag func(string) bool) []*Obligation {
 					Desc: fmt.Sprintf("call-graph frame: %s never writes %s of an object it did not allocate", ct.Target, fld),
 				}
 				switch {
+				case !ai.fieldExists(fld):
+					// a misspelt field would make the clause hold vacuously
+					ob.Result = &SolveResult{Status: "unknown", Backend: "callgraph", Output: "no such struct field in the loaded program: " + fld}
 				case unk:
 					ob.Result = &SolveResult{Status: "unknown", Backend: "callgraph", Output: "a function value of unresolvable type is called"}
 				case w[fld] != "":
@@ -1367,4 +1396,25 @@ func (P *Program) NoWriteObligations(hasTag func(string) bool) []*Obligation {
 		}
 	}
 	return out
+}
+
+// fieldExists: "pkg.Type.field" names a field of a named struct type of the module.
+func (ai *AimInfo) fieldExists(name string) bool {
+	i := strings.LastIndex(name, ".")
+	if i < 0 {
+		return false
+	}
+	tn, fn := name[:i], name[i+1:]
+	for _, nm := range ai.cg.named {
+		st, ok := nm.Underlying().(*types.Struct)
+		if !ok || typeShort(nm) != tn {
+			continue
+		}
+		for k := 0; k < st.NumFields(); k++ {
+			if st.Field(k).Name() == fn {
+				return true
+			}
+		}
+	}
+	return false
 }
